@@ -142,8 +142,11 @@ def cookie_pairs(header: str | None) -> list[tuple[str, str]]:
 # ---- recording applications (the "server side" of the WSGI / ASGI / loopback transports) ------------------------------------
 
 class WsgiRecorder:
+    """records what it receives; answers the `Set-Cookie` header values scripted in `set_cookies` (out of band)"""
+
     def __init__(self):
         self.last = None
+        self.set_cookies: list[str] = []
 
     def __call__(self, environ, start_response):
         n = int(environ.get("CONTENT_LENGTH") or 0)
@@ -156,13 +159,14 @@ class WsgiRecorder:
                      "path_bytes": environ.get("PATH_INFO", "").encode("latin-1"),
                      "script": environ.get("SCRIPT_NAME", ""),
                      "query": environ.get("QUERY_STRING", ""), "headers": headers, "body": body}
-        start_response("200 OK", [("Content-Type", "text/plain")])
+        start_response("200 OK", [("Content-Type", "text/plain")] + [("Set-Cookie", v) for v in self.set_cookies])
         return [b"ok"]
 
 
 class AsgiRecorder:
     def __init__(self):
         self.last = None
+        self.set_cookies: list[str] = []
 
     async def __call__(self, scope, receive, send):
         if scope["type"] == "lifespan":
@@ -184,7 +188,8 @@ class AsgiRecorder:
         self.last = {"method": scope["method"], "path_bytes": scope["path"].encode("utf-8"),
                      "raw_path": scope.get("raw_path"), "query": scope["query_string"].decode("latin-1"),
                      "headers": {k.decode("latin-1").lower(): v.decode("latin-1") for k, v in scope["headers"]}, "body": body}
-        await send({"type": "http.response.start", "status": 200, "headers": [(b"content-type", b"text/plain")]})
+        await send({"type": "http.response.start", "status": 200, "headers": [(b"content-type", b"text/plain")] + [
+            (b"set-cookie", v.encode("latin-1")) for v in self.set_cookies]})
         await send({"type": "http.response.body", "body": b"ok"})
 
 
@@ -197,6 +202,7 @@ class Loopback:
 
         outer = self
         self.last = None
+        self.set_cookies: list[str] = []
 
         class H(http.server.BaseHTTPRequestHandler):
             protocol_version = "HTTP/1.1"
@@ -210,6 +216,8 @@ class Loopback:
                               "headers": {k.lower(): v for k, v in self.headers.items()}, "body": body}
                 self.send_response(200)
                 self.send_header("Content-Length", "2")
+                for v in outer.set_cookies:
+                    self.send_header("Set-Cookie", v)
                 self.end_headers()
                 self.wfile.write(b"ok")
 
